@@ -73,3 +73,39 @@ def check_result(res, expect_sorted_list):
 
 def overlapping(A, B):
     return bool(A) and bool(B) and not (A[0] > B[-1] or B[0] > A[-1])
+
+
+# ----------------------------------------------------------------------------- long runs vs sparse probes
+# One operand is a long contiguous run (optionally with one hole), the other has 1..k sparse elements:
+# the shape a block-skipping / galloping optimisation of a merge loop is written for.
+RUNS = {
+    "quick": dict(U=20, lens=[8, 9, 10, 16, 17], k=2),
+    "thorough": dict(U=36, lens=[7, 8, 9, 10, 11, 15, 16, 17, 18, 31, 32, 33], k=2),
+}
+
+
+def run_sets(tier):
+    cfg = RUNS[tier]
+    out = []
+    for ln in cfg["lens"]:
+        for a in range(0, cfg["U"] - ln + 1):
+            base = list(range(a, a + ln))
+            out.append(base)
+            for h in range(ln):
+                out.append(base[:h] + base[h + 1:])
+    return out
+
+
+def probe_sets(tier):
+    import itertools as it
+
+    cfg = RUNS[tier]
+    out = []
+    for k in range(1, cfg["k"] + 1):
+        out.extend(list(c) for c in it.combinations(range(cfg["U"]), k))
+    return out
+
+
+def run_blocks(tier, chunk=40):
+    n = len(run_sets(tier))
+    return [("runs", {"a0": i, "a1": min(n, i + chunk)}) for i in range(0, n, chunk)]
